@@ -21,7 +21,7 @@ import (
 func init() {
 	register(&Property{
 		ID:        "C14",
-		Technique: "constant and table extraction (limit pairs, protocol table, status map) compared with the Twirp source in the module cache, codec layout agreement of the grpc-web frame header, sanitiser must-pass value flow for trailer text, guard dominance on status writes",
+		Technique: "constant and table extraction (limit pairs, protocol table, status map) compared with the Twirp source in the module cache, codec layout agreement of the grpc-web frame header (length equation proved by the difference-constraint prover), sanitiser must-pass value flow for trailer text, guard dominance on status writes",
 		Explanation: "Statically decidable part of 'the HTTP gateway maps outcomes faithfully': " +
 			"(R1) limit agreement: wherever a LimitReader bound N is followed by a length test against M, N > M (otherwise oversize bodies are truncated instead of rejected); announced grpc-web sizes are compared with the limit before reading/writing; " +
 			"(R2) the protocol table: every content type maps to a protocol whose response content type is that key, JSON types use the JSON codecs, -text types the base64 reader/writer, and the fallback '*' exists; " +
